@@ -13,11 +13,12 @@ DetailedPlacement DetailedPlacement::fromIspdCircuit(const Circuit &circuit) {
   for (int c = 0; c < circuit.nbCells(); ++c) {
     if (circuit.cellIsFixed_[c]) {
       widths[c] = -1;
-    }
-    if (circuit.cellHeight_[c] != rowHeight) {
+    } else if (circuit.placedHeight(c) != rowHeight) {
       widths[c] = -1;
       Rectangle pl = circuit.placement(c);
       obstacles.push_back(pl);
+    } else {
+      widths[c] = circuit.placedWidth(c);
     }
   }
   std::vector<int> cellIndex;
